@@ -60,6 +60,29 @@ pub fn tinv(t: &Tower, a: &El) -> Option<El> {
     Some(r)
 }
 
+/// The model is a field iff p is prime and every level adjoins a k-th root of a k-th power non-residue (k prime).
+/// Curve-level obligations are only evaluated over a genuine field (inverses of non-zero elements then exist).
+pub fn is_field(t: &Tower) -> bool {
+    if !is_probable_prime(&t.p, 16) {
+        return false;
+    }
+    let mut below = Tower::new(t.p.clone());
+    for (d, l) in t.levels.iter().enumerate() {
+        let q = below.order(d);
+        let k = u(l.deg as u64);
+        let qm1 = &q - UInt::one();
+        if !(l.deg == 2 || l.deg == 3) || !(&qm1 % &k).is_zero() || below.is_zero(&l.nonresidue) {
+            return false;
+        }
+        if below.pow(&l.nonresidue, &(&qm1 / &k)) == below.one(d) {
+            return false;
+        }
+        let nr = below.to_flat(&l.nonresidue);
+        below = below.extend(l.deg, &nr);
+    }
+    true
+}
+
 pub fn small(t: &Tower, d: usize, k: u64) -> El {
     t.embed(&El::P(u(k) % &t.p), 0, d)
 }
